@@ -1,4 +1,5 @@
-\* behaviour generation: chains of 4 blocks, all ten transaction kinds, 0..3 events, both statuses
+\* behaviour generation: chains of 4 blocks with 3 RevertHead (depth 1..3) and replacement blocks re-including reverted transactions,
+\* all ten transaction kinds, 0..3 events, both statuses
 CONSTANTS
   MaxBlocks = 4
   MaxSize = 3
